@@ -705,6 +705,45 @@ func padEventTo(m pduMap, ver string, n int) bool {
 	return false
 }
 
+// equalLengthRedaction drops the given top-level members from a built event and adds one member outside every
+// keep-list whose size makes the canonical text exactly as long as the canonical text of its redaction (nil when the
+// arithmetic does not work out). The content hash no longer matches.
+func equalLengthRedaction(ver string, built []byte, drop []string) pduMap {
+	m := toMap(built)
+	for _, k := range drop {
+		delete(m, k)
+	}
+	delete(m, "unsigned")
+	impl := gmsl.MustGetRoomVersion(gmsl.RoomVersion(ver))
+	t0, err := gmsl.CanonicalJSON(m.text())
+	if err != nil {
+		return nil
+	}
+	red, err := impl.RedactEventJSON(t0)
+	if err != nil {
+		return nil
+	}
+	red, err = gmsl.CanonicalJSON(red)
+	if err != nil {
+		return nil
+	}
+	// a new member `"<key>":1,` costs len(key)+5 bytes
+	d := len(red) - len(t0)
+	if d < 6 {
+		return nil
+	}
+	key := "zz" + strings.Repeat("q", d-5-2)
+	if d-5 < 2 {
+		key = strings.Repeat("q", d-5)
+	}
+	m[key] = json.RawMessage("1")
+	t1, err := gmsl.CanonicalJSON(m.text())
+	if err != nil || len(t1) != len(red) {
+		return nil
+	}
+	return m
+}
+
 func emitParseAll(o *Out, r *Rng, label, ver string, text []byte, id string) {
 	hv := ver
 	im := o.Do("parse_untrusted", hv, hx(text))
@@ -789,6 +828,16 @@ func genEvent(o *Out, tier string, r *Rng) {
 					lab += "+rehash"
 				}
 				emitParseAll(o, r, lab, ver, m.text(), id)
+			}
+			// equal-length adversary: redaction can ADD bytes (an absent `content` comes back as "content":{}, an absent
+			// `type` as "type":""), so an event with a failing hash can have a redaction of exactly its own length while
+			// carrying material outside the keep-list; any shortcut that compares sizes instead of bytes is exposed here.
+			if r.Chance(60) {
+				for _, drop := range [][]string{{"content"}, {"type"}, {"content", "type"}} {
+					if m := equalLengthRedaction(ver, b.json, drop); m != nil {
+						emitParseAll(o, r, "equal-length-redaction", ver, m.text(), id)
+					}
+				}
 			}
 			// total size at the limit (with and without a valid hash)
 			if sizeOps < sizeBudget && r.Chance(40) {
